@@ -20,6 +20,7 @@ SplitOrder and SkipList are the models the E-SHIM traces of the real headers are
 -/
 import TbbVerif.Core.Sched
 import TbbVerif.Core.Proto
+import TbbVerif.Generated.C12
 
 namespace TbbVerif.C12
 
@@ -136,6 +137,7 @@ inductive Res where
   | misuse
   | touched (entry : Node)          -- SplitOrder: prepare_bucket only
   | broken (what : String)          -- SplitOrder: the code would dereference a null pointer here (proved unreachable)
+  | sized (what : String)           -- SplitOrder: rehash / reserve / max_load_factor returned (no list result)
   deriving Repr, DecidableEq
 
 structure Th where
@@ -279,6 +281,63 @@ def getParent (b : Nat) : Option Nat := if b = 0 then none else some (b - 2 ^ Na
 def parentOf (b : Nat) : Nat := b - 2 ^ Nat.log2 b
 
 
+/-! ## table sizing: `my_bucket_count` as a function of the constructor argument and of the sequence of
+`insert` / `reserve` / `rehash` / `max_load_factor(f)` calls.  Every expression comes from `Generated/C12.lean`
+(translated from the header on every run); this section only adds the control flow around them. -/
+namespace Sizing
+open Generated.C12
+
+structure St where
+  bc   : Nat
+  size : Nat := 0
+  mlf  : F32
+  deriving Repr
+
+inductive Op where
+  | ins (k : Nat)          -- `k` successful inserts of new keys: `my_size.fetch_add(1)`, `adjust_table_size`
+  | reserve (n : Nat)
+  | rehash (n : Nat)
+  | setMlf (f : F32)
+  deriving Repr
+
+/-- `while (cond) necessary_bucket_count <<= 1;` of `reserve`; `none`: still looping after `fuel` iterations -/
+def reserveLoop (cur n : Nat) (mlf : F32) : Nat → Nat → Option Nat
+  | 0, _ => none
+  | fuel + 1, nec =>
+    if reserveCond cur nec n mlf then reserveLoop cur n mlf fuel (reserveStep cur nec n mlf) else some nec
+
+/-- after 64 shifts the word is 0 and stays 0: a loop that has not stopped by then never stops -/
+def reserveFuel : Nat := 200
+
+def insertOne (s : St) : St :=
+  let total := s.size + 1
+  if adjustCond total s.bc s.mlf then { s with size := total, bc := adjustNew total s.bc s.mlf }
+  else { s with size := total }
+
+def insertMany : Nat → St → St
+  | 0, s => s
+  | k + 1, s => insertMany k (insertOne s)
+
+/-- one call, executed alone (every CAS on `my_bucket_count` succeeds).  `none`: `reserve` does not return. -/
+def step (s : St) : Op → Option St
+  | .ins k => some (insertMany k s)
+  | .reserve n =>
+    match reserveLoop s.bc n s.mlf reserveFuel (reserveInit s.bc n s.mlf) with
+    | none => none
+    | some nec => some { s with bc := reserveDesired s.bc nec n s.mlf }
+  | .rehash n => some (if rehashCond s.bc n then { s with bc := rehashNew s.bc n } else s)
+  | .setMlf f => some (if mlfReject f then s else { s with mlf := f })      -- a rejected value throws: nothing changes
+
+def run (s : St) : List Op → Option St
+  | [] => some s
+  | op :: ops => match step s op with | none => none | some s' => run s' ops
+
+/-- the constructor -/
+def init (n0 : Nat) (mlf0 : F32) : St := { bc := ctorBc n0, mlf := mlf0 }
+
+end Sizing
+
+
 /-! ## SplitOrder: the unordered containers (bucket table + CAS list), one step per atomic access -/
 namespace SplitOrder
 
@@ -289,8 +348,7 @@ def rule (multi : Bool) (k : Key) : Rule :=
 
 structure Cfg where
   multi : Bool := false
-  mlfNum : Nat := 4       -- my_max_load_factor as a fraction
-  mlfDen : Nat := 1
+  mlf0  : F32 := F32.ofNat 4        -- my_max_load_factor when the threads start
   deriving Repr
 
 inductive Op where
@@ -298,10 +356,13 @@ inductive Op where
   | find (h uk : Nat)
   | touch (h : Nat)            -- prepare_bucket only (the entry of count()/equal_range() of multi containers)
   | trav
+  | reserve (n : Nat)
+  | rehash (n : Nat)
+  | setMlf (f : F32)           -- max_load_factor(f): a plain (non-atomic) store
   deriving Repr, DecidableEq
 
 inductive Kind where
-  | ins | find | touch
+  | ins | find | touch | size
   deriving Repr, DecidableEq
 
 inductive Pc where
@@ -315,7 +376,9 @@ inductive Pc where
   | dSearch | dSetNext | dCas -- insert_dummy_node
   | ibStore                   -- my_segments[b].store(dummy)
   | search | setNext | cas    -- search_after / try_insert
-  | szAdd | ldBc2 | casBc     -- my_size.fetch_add, adjust_table_size
+  | szAdd | ldBc2 | casBc     -- my_size.fetch_add, adjust_table_size (`casBc` is also the single CAS of rehash)
+  | rhLd                      -- rehash: my_bucket_count.load
+  | rvLd | rvCas              -- reserve: my_bucket_count.load (+ the local loop), the CAS loop
   | fwalk | twalk
   deriving Repr, DecidableEq
 
@@ -336,6 +399,8 @@ structure Th where
   dres  : Node := 0               -- node to publish in the table (new or already present dummy)
   sz    : Nat := 0
   cur   : Nat := 0
+  nec   : Nat := 0                -- the bucket count a CAS on my_bucket_count is about to install
+  arg   : Nat := 0                -- argument of rehash / reserve
   seen  : List Node := []
   snap  : List Node := []
   must  : Bool := false
@@ -345,6 +410,7 @@ structure St where
   L    : LSt := {}
   bc   : Nat := 8
   size : Nat := 0
+  mlf  : F32 := F32.ofNat 4
   slot : Nat → Option Node := fun _ => none
   ths  : List Th := []
   log  : List (Tid × Res) := []
@@ -354,6 +420,7 @@ structure Out where
   th   : Th
   bc   : Option Nat := none            -- new bucket count
   size : Option Nat := none
+  mlf  : Option F32 := none
   slot : Option (Nat × Option Node) := none
   ev   : Option Ev := none
   res  : Option Res := none
@@ -385,6 +452,11 @@ def thStep (cfg : Cfg) (s : St) (t : Tid) (th : Th) : Out :=
                         must := CasList.hasKey L ⟨regularKey h, uk⟩ } }
     | .touch h :: _ => { th := { th with pc := .ldBc, kind := .touch, h := h, stack := [] } }
     | .trav :: _ => { th := { th with pc := .twalk, prev := 0, seen := [0], snap := L.chain } }
+    | .reserve n :: _ => { th := { th with pc := .rvLd, kind := .size, arg := n, stack := [] } }
+    | .rehash n :: _ => { th := { th with pc := .rhLd, kind := .size, arg := n, stack := [] } }
+    | .setMlf f :: _ =>
+      if Generated.C12.mlfReject f then { th := th.finish, res := some (.sized "mlf-rejected") }
+      else { th := th.finish, mlf := some f, res := some (.sized "mlf") }
   | .ldBc =>
     { th := { th with pc := .gb1, b := th.h % s.bc }, ev := some { kind := "load", var := "bc", a := toString s.bc } }
   | .gb1 =>
@@ -402,6 +474,7 @@ def thStep (cfg : Cfg) (s : St) (t : Tid) (th : Th) : Out :=
       match th.kind with
       | .find => { th := { th with pc := .fwalk, prev := p, k := th.rk }, ev := some ev }
       | .touch => { th := th.finish, ev := some ev, res := some (.touched p) }
+      | .size => { th := th.finish, ev := some ev, res := some (.touched p) }      -- (sizing calls never get here)
       | .ins =>
         { act := .alloc th.rk t, th := { th with pc := .search, prev := p, k := th.rk, curr := none, new := L.fresh },
           ev := some ev }
@@ -482,17 +555,43 @@ def thStep (cfg : Cfg) (s : St) (t : Tid) (th : Th) : Out :=
       ev := some { kind := "fadd", var := "size", a := toString s.size, b := toString (s.size + 1) } }
   | .ldBc2 =>
     let ev : Ev := { kind := "load", var := "bc", a := toString s.bc }
-    -- float(total_elements) / float(current_size) > my_max_load_factor
-    -- (the table cannot grow beyond 2^63 buckets: 63 segment pointers; unreachable in practice)
-    if (th.sz + 1) * cfg.mlfDen > cfg.mlfNum * s.bc ∧ s.bc < 2 ^ 63 then { th := { th with pc := .casBc, cur := s.bc }, ev := some ev }
+    -- float(total_elements) / float(current_size) > my_max_load_factor   (generated condition and new count)
+    -- (the table cannot grow beyond 2^63 buckets: 63 segment pointers; the model stops doubling there)
+    if Generated.C12.adjustCond (th.sz + 1) s.bc s.mlf && decide (s.bc < 2 ^ 63) then
+      { th := { th with pc := .casBc, cur := s.bc, nec := Generated.C12.adjustNew (th.sz + 1) s.bc s.mlf }, ev := some ev }
     else { th := th.finish, ev := some ev }
   | .casBc =>
+    -- my_bucket_count.compare_exchange_strong(cur, nec), result ignored (adjust_table_size and rehash)
+    let res : Option Res := if th.kind = .size then some (.sized "rehash") else none
     if s.bc = th.cur then
-      { th := th.finish, bc := some (2 * th.cur),
-        ev := some { kind := "cas", var := "bc", a := toString th.cur, b := toString (2 * th.cur), ok := true } }
+      { th := th.finish, bc := some th.nec, res := res,
+        ev := some { kind := "cas", var := "bc", a := toString th.cur, b := toString th.nec, ok := true } }
     else
-      { th := th.finish,
+      { th := th.finish, res := res,
         ev := some { kind := "cas", var := "bc", a := toString th.cur, b := toString s.bc, ok := false } }
+  | .rhLd =>
+    let ev : Ev := { kind := "load", var := "bc", a := toString s.bc }
+    if Generated.C12.rehashCond s.bc th.arg then
+      { th := { th with pc := .casBc, cur := s.bc, nec := Generated.C12.rehashNew s.bc th.arg }, ev := some ev }
+    else { th := th.finish, ev := some ev, res := some (.sized "rehash") }
+  | .rvLd =>
+    let ev : Ev := { kind := "load", var := "bc", a := toString s.bc }
+    -- the loop `while (necessary * max_load_factor() < n) necessary <<= 1` is thread-local
+    match Sizing.reserveLoop s.bc th.arg s.mlf Sizing.reserveFuel (Generated.C12.reserveInit s.bc th.arg s.mlf) with
+    | none => { th := th.finish, ev := some ev, res := some (.sized "reserve-does-not-return") }
+    | some nec =>
+      -- (a count shifted out of the 64-bit word is not modelled here: see `Sizing`)
+      if nec = 0 then { th := th.finish, ev := some ev, res := some (.sized "reserve-wrapped") }
+      else { th := { th with pc := .rvCas, cur := s.bc, nec := nec }, ev := some ev }
+  | .rvCas =>
+    let desired := Generated.C12.reserveDesired th.cur th.nec th.arg s.mlf
+    if s.bc = th.cur then
+      { th := th.finish, bc := some desired, res := some (.sized "reserve"),
+        ev := some { kind := "cas", var := "bc", a := toString th.cur, b := toString desired, ok := true } }
+    else
+      let ev : Ev := { kind := "cas", var := "bc", a := toString th.cur, b := toString s.bc, ok := false }
+      if Generated.C12.reserveBreak s.bc th.nec th.arg s.mlf then { th := th.finish, ev := some ev, res := some (.sized "reserve") }
+      else { th := { th with cur := s.bc }, ev := some ev }
   | .fwalk =>
     let c := L.next th.prev
     let ev : Ev := { kind := "load", var := nextVar th.prev, a := ptrName c }
@@ -517,6 +616,7 @@ def applyOut (s : St) (t : Tid) (o : Out) : St :=
   { L := s.L.apply o.act,
     bc := o.bc.getD s.bc,
     size := o.size.getD s.size,
+    mlf := o.mlf.getD s.mlf,
     slot := match o.slot with | none => s.slot | some (b, v) => upd s.slot b v,
     ths := s.ths.set t o.th,
     log := addLog s.log t o.res }
@@ -526,10 +626,11 @@ def step (cfg : Cfg) (s : St) (t : Tid) : St :=
   | none => s
   | some th => applyOut s t (thStep cfg s t th)
 
-def initSt (bc : Nat) (progs : List (List Op)) : St := { bc := bc, ths := progs.map (fun p => { ops := p }) }
+def initSt (cfg : Cfg) (bc : Nat) (progs : List (List Op)) : St :=
+  { bc := bc, mlf := cfg.mlf0, ths := progs.map (fun p => { ops := p }) }
 
 def sys (cfg : Cfg) (bc : Nat) (progs : List (List Op)) : Sys St :=
-  { init := initSt bc progs, step := step cfg }
+  { init := initSt cfg bc progs, step := step cfg }
 
 end SplitOrder
 
